@@ -1,10 +1,10 @@
 #!/bin/bash
 # usage: tools/confirm_seed.sh <id> : confirms in the scratch worktree /tmp/seed/<id> that the change passes the
 # existing tests, and that the demo fails with the change and passes without it
-id=$1; wt=/tmp/seed/$id
+id=$1; wt=${SEED_ROOT:-/tmp/seed}/$id
 cd $wt || exit 9
 git diff --quiet -- s3transfer && { echo "$id: no change in worktree"; exit 9; }
-/venv/bin/python seed/demo.py $wt > /tmp/seed/$id.demo_changed.log 2>&1; a=$?
-/venv/bin/python seed/demo.py /repo > /tmp/seed/$id.demo_unchanged.log 2>&1; b=$?
+/venv/bin/python seed/demo.py $wt > ${SEED_ROOT:-/tmp/seed}/$id.demo_changed.log 2>&1; a=$?
+/venv/bin/python seed/demo.py /repo > ${SEED_ROOT:-/tmp/seed}/$id.demo_unchanged.log 2>&1; b=$?
 t=$(/venv/bin/python -m pytest -q -p no:cacheprovider tests/unit tests/functional 2>&1 | grep -E "passed|failed" | tail -1)
 echo "$id demo_changed_exit=$a demo_unchanged_exit=$b tests: $t"
